@@ -709,4 +709,37 @@ elif(n):pass
 r = (a)if(b)else(c)
 k = (a)is(b)is not(c)
 ''',
+# 41 --------------------------------------------------------------------------------------------------------------
+'''\
+def g():
+    pass
+if a:
+  pass
+elif b:
+  pass
+if c:
+  x = 1
+elif d:
+  x = 2
+else:
+  x = 3
+class K:
+        x = 1
+        def m(self):
+          return 1
+for i in j:
+ pass
+else:
+ pass
+try:
+   a
+except E:
+      b
+finally:
+  c
+while w:
+  if v:
+          u
+  elif t: s
+''',
 ]
